@@ -24,8 +24,18 @@ def resolve(target):
     return obj
 
 
+class NotReplayable(Exception):
+    """the witness is over abstract state that has no concrete counterpart"""
+
+
+ABSTRACT_MARKERS = ('$heap_compiler', '$node', '$value', '$heap_set', '$namespace', '$objset', '$obj', '$anyobj')
+
+
 def decode(v):
     if isinstance(v, dict):
+        for mk in ABSTRACT_MARKERS:
+            if mk in v:
+                raise NotReplayable(f'witness component {mk} is abstract (heap / record mode)')
         if '$frac' in v:
             fr = fractions.Fraction(v['$frac'][0], v['$frac'][1])
             return float(fr)
@@ -40,7 +50,10 @@ def decode(v):
             if v.get('build'):
                 return resolve(v['build'])(**fields)
             cls = resolve(v['$record'])
-            return cls(**fields)
+            try:
+                return cls(**fields)
+            except TypeError as e:
+                raise NotReplayable(f'record {v["$record"]} has no native builder ({e})')
         if '$abstract' in v:
             # an abstract callable parameter: the sidecar's native stand-in native_<name>
             return getattr(decode.cmod, 'native_' + v['$abstract'], None) if getattr(decode, 'cmod', None) else None
@@ -94,7 +107,14 @@ def replay(spec):
     cmod = importlib.import_module(spec['contract_module'])
     decode.cmod = cmod
     names = spec['param_order']
-    args = [decode(spec['args'][n]) for n in names]
+    try:
+        args = [decode(spec['args'][n]) for n in names]
+        if not spec.get('native_call') and spec['kind'] != 'lemma':
+            native_target(spec['target'])
+    except NotReplayable as e:
+        return None, f'not replayable natively: {e}'
+    except AttributeError as e:
+        return None, f'not replayable natively: target is not addressable from outside ({e})'
     kind = spec['kind']
     if kind == 'lemma':
         body = getattr(cmod, spec['clause'])
